@@ -54,6 +54,7 @@ type Violation struct {
 // Run collects what one check invocation did.
 type Run struct {
 	fdStart    int
+	goStart    int
 	ID         string
 	Tier       string
 	Seed       int64
@@ -92,6 +93,7 @@ func New(id, tier string) *Run {
 		violations: map[string]*Violation{}, known: map[string]string{}, knownHit: map[string]int64{}}
 	r.loadKnown()
 	r.fdStart = OpenFDs()
+	r.goStart = runtime.NumGoroutine()
 	current = r
 	return r
 }
@@ -278,6 +280,18 @@ func (r *Run) Finish() int {
 			r.Violation("resource:file-descriptors", fmt.Sprintf("%d file descriptors are open at the end of the exploration, %d were open at its start: the code under test leaks descriptors", now, r.fdStart), nil)
 		}
 		r.Extra["open_file_descriptors_start_end"] = []int{r.fdStart, OpenFDs()}
+	}
+	if !r.ReplayMode {
+		// the same for goroutines: give stragglers a moment, then compare with the start
+		n := runtime.NumGoroutine()
+		for i := 0; i < 20 && n > r.goStart+64; i++ {
+			time.Sleep(50 * time.Millisecond)
+			n = runtime.NumGoroutine()
+		}
+		if n > r.goStart+64 {
+			r.Violation("resource:goroutines", fmt.Sprintf("%d goroutines exist at the end of the exploration, %d existed at its start: the code under test leaves goroutines behind", n, r.goStart), nil)
+		}
+		r.Extra["goroutines_start_end"] = []int{r.goStart, n}
 	}
 	r.mu.Lock()
 	defer r.mu.Unlock()
